@@ -361,6 +361,8 @@ class Exec:
         if isinstance(a, SPrim) and isinstance(b, SPrim) and a.ty == b.ty == "int":
             t = {ast.Lt: a.t < b.t, ast.LtE: a.t <= b.t, ast.Gt: a.t > b.t, ast.GtE: a.t >= b.t}[type(op)]
             return k(B(t), st)
+        if isinstance(a, (SOpaqueObj, SOpaque)) or isinstance(b, (SOpaqueObj, SOpaque)):
+            return k(B(S.fresh("cmp", z3.BoolSort())), st)          # an ordering test on an unmodelled value: unknown
         raise Unsupported(f"comparison {type(op).__name__} on {a}, {b}")
 
     def eq(self, a, b, st, k):
@@ -436,6 +438,7 @@ class Exec:
     # comprehension: [f(x) for x in seq] / tuple(f(x) for x in seq) / (f(x) for ...)
     def ev_ListComp(self, e, st, k):
         def got(sq, st2):
+            if isinstance(sq, SOpaqueObj): return k(sq, st2)
             r = new_ref()
             return k(SRef(("list", sq.elem), r), st2.put(r, ListCell(sq.elem, sq.n, sq.arr, getattr(sq, "setview", None))))
         return self.comprehension(e, st, got)
@@ -493,10 +496,10 @@ class Exec:
         if len(e.generators) != 1 or e.generators[0].is_async:
             raise Unsupported("nested comprehension")
         g = e.generators[0]
-        if not isinstance(g.target, ast.Name): raise Unsupported("comprehension target")
         def got(it, st2):
-            if isinstance(it, SOpaqueObj):
+            if isinstance(it, SOpaqueObj) or (type(it).__name__ == "SIter" and any(isinstance(x, SOpaqueObj) for x in it.args)):
                 return k(SOpaqueObj("comprehension"), st2)
+            if not isinstance(g.target, ast.Name): raise Unsupported("comprehension target")
             st3, src = self.iter_seq(it, st2)
             i = S.fresh("i!c", z3.IntSort())
             x = S.wrap(src.elem, src.arr[i])
